@@ -189,8 +189,43 @@ def check_flatten(run, A):
         fn = A.prog.func(q)
         g = A.graphs.get(fn)
         prods = [e.term for e in g.events if e.kind == 'call' and is_call_to(e.term, 'numpy.prod')]
-        if len(prods) < 2:
-            raise AnalysisError(f'{name}: working-shape products not found')
+        # the 2-D working shape groups exactly the moved axes: its extents derive from the NUMBER of requested axes
+        # (len(axis) / len(tmp_axis)), not from a fixed count of trailing axes
+        mv0 = [e.term for e in g.events if e.kind == 'call' and is_call_to(e.term, 'numpy.moveaxis')]
+        rsh = [e.term for e in g.events if e.kind == 'call' and is_call_to(e.term, 'numpy.reshape') and mv0 and strip_views(call_arg(e.term, 0)) is mv0[0]]
+        if not mv0 or not rsh:
+            raise AnalysisError(f'{name}: moveaxis / reshape to the 2-D working array not found')
+        ws = strip_views(call_arg(rsh[0], 1, 'newshape'))
+        while is_call_to(ws, 'builtin.tuple', 'builtin.list') and len(call_parts(ws)[1]) == 1:
+            ws = strip_views(call_parts(ws)[1][0])
+        elems = list(ws.args[0]) if ws.op in ('tuple', 'list') else None
+
+        def counts_moved_axes(x):
+            # a len(axis) / len(tmp_axis) that selects the extents - not one buried in how the array whose .shape is read was built
+            stack, seen = [x], set()
+            while stack:
+                y = stack.pop()
+                if not isinstance(y, T) or y.id in seen:
+                    continue
+                seen.add(y.id)
+                if is_call_to(y, 'builtin.len') and data_derives(call_arg(y, 0), 'axis'):
+                    return True
+                if y.op == 'attr' and y.args[1] == 'shape':
+                    continue
+                for a in y.args:
+                    if isinstance(a, T):
+                        stack.append(a)
+                    elif isinstance(a, tuple):
+                        for z in a:
+                            if isinstance(z, T):
+                                stack.append(z)
+                            elif isinstance(z, tuple):
+                                stack.extend(w for w in z if isinstance(w, T))
+            return False
+        okw = elems is not None and len(elems) == 2 and all(counts_moved_axes(x) or const_val(x) == -1 for x in elems) and any(counts_moved_axes(x) for x in elems)
+        run.check(okw, 'R-ELL', f'{name}: the flattened group is exactly the requested axes', fn.loc(rsh[0].node), '',
+                  'the 2-D working shape does not derive from the number of requested axes (len(axis)): with a single axis or more than two axes a fixed count of '
+                  'trailing axes groups the wrong extents, and the threshold is taken over several independent slices at once', construct=f'R-ELL::{q}::working-shape')
         for t in prods:
             arg = strip_views(call_arg(t, 0))
             leading = False
